@@ -449,6 +449,8 @@ package util
 // key resolves to a branch. Only the missing-key list of the trie changes.
 //@ func (*MerklePatriciaTrie).getNode returns (n, err)
 //@   trusted
+//@   props C16
+//@   opt bodyfor C16
 //@   assigns mpt.missingNodeKeys
 //@   ensures err == nil ==> n != nil && Canon(n) && PathsWF(n) && ((n is *FullNode) == KeyIsFull(key)) && len(key) == 32
 //@   ensures err != nil ==> n == nil
@@ -457,11 +459,17 @@ package util
 // handed to it must be canonical (C02) and carry hex paths. Body: see C14.
 //@ func (*MerklePatriciaTrie).insertNode returns (n, key, err)
 //@   trusted
+//@   props C16
+//@   opt bodyfor C16
+//@   holds mpt.mutex W
 //@   requires newNode != nil && Canon(newNode) && PathsWF(newNode)                          #canonical-node
 //@   assigns heap(OriginTracker.Origin), heap(OriginTracker.Version)
 //@   ensures err == nil ==> n == newNode && key != nil && len(key) == 32 && ((newNode is *FullNode) == KeyIsFull(key))
 //@ func (*MerklePatriciaTrie).deleteNode returns (err)
 //@   trusted
+//@   props C16
+//@   opt bodyfor C16
+//@   holds mpt.mutex W
 //@   requires node != nil
 //@   assigns nothing
 
@@ -498,12 +506,14 @@ package util
 
 //@ func (*MerklePatriciaTrie).insertLeaf returns (n, key, err)
 //@   props C01 C02
+//@   holds mpt.mutex W
 //@   mode wrap
 //@   requires ValOK(value) && HexPath(path)
 //@   assigns heap(OriginTracker.Origin), heap(OriginTracker.Version)
 //@   ensures err == nil ==> n != nil && n is *LeafNode && key != nil && len(key) == 32 && !KeyIsFull(key) && Canon(n) && PathsWF(n)
 //@ func (*MerklePatriciaTrie).insertExtension returns (n, key, err)
 //@   props C01 C02
+//@   holds mpt.mutex W
 //@   mode wrap
 //@   requires len(path) > 0 && HexPath(path) && len(key) == 32 && KeyIsFull(key)                  #canonical-extension
 //@   assigns heap(OriginTracker.Origin), heap(OriginTracker.Version)
@@ -511,12 +521,14 @@ package util
 
 //@ func (*MerklePatriciaTrie).getNodeValueRaw returns (v, err)
 //@   props C01
+//@   holds mpt.mutex R
 //@   mode wrap
 //@   requires node != nil && Canon(node) && PathsWF(node) && HexPath(path)
 //@   assigns mpt.missingNodeKeys
 
 //@ func (*MerklePatriciaTrie).insert returns (n, k, err)
 //@   props C01 C02
+//@   holds mpt.mutex W
 //@   mode wrap
 //@   requires ValOK(value) && HexPath(path)
 //@   assigns mpt.missingNodeKeys, heap(OriginTracker.Origin), heap(OriginTracker.Version)
@@ -525,6 +537,7 @@ package util
 
 //@ func (*MerklePatriciaTrie).insertAfterPathTraversal returns (n, k, err)
 //@   props C01 C02
+//@   holds mpt.mutex W
 //@   mode wrap
 //@   requires ValOK(value) && node != nil && Canon(node) && PathsWF(node)
 //@   assigns mpt.missingNodeKeys, heap(OriginTracker.Origin), heap(OriginTracker.Version)
@@ -533,6 +546,7 @@ package util
 
 //@ func (*MerklePatriciaTrie).insertAtNode returns (n, k, err)
 //@   props C01 C02
+//@   holds mpt.mutex W
 //@   mode wrap
 //@   requires ValOK(value) && node != nil && Canon(node) && PathsWF(node) && len(path) > 0 && HexPath(path)
 //@   assigns mpt.missingNodeKeys, heap(OriginTracker.Origin), heap(OriginTracker.Version)
@@ -541,6 +555,7 @@ package util
 
 //@ func (*MerklePatriciaTrie).delete returns (n, k, err)
 //@   props C01 C02
+//@   holds mpt.mutex W
 //@   mode wrap
 //@   ensures err == nil && n != nil ==> Canon(n) && PathsWF(n)                                                   #returns-canonical-node
 //@   requires HexPath(path)
@@ -553,6 +568,7 @@ package util
 // The remaining path is exhausted at node: only a value stored exactly here may be removed.
 //@ func (*MerklePatriciaTrie).deleteAfterPathTraversal returns (n, k, err)
 //@   props C01 C02
+//@   holds mpt.mutex W
 //@   mode wrap
 //@   ensures err == nil && n != nil ==> Canon(n) && PathsWF(n)                                                   #returns-canonical-node
 //@   requires node != nil && Canon(node) && PathsWF(node)
@@ -564,6 +580,7 @@ package util
 
 //@ func (*MerklePatriciaTrie).deleteAtNode returns (n, k, err)
 //@   props C01 C02
+//@   holds mpt.mutex W
 //@   mode wrap
 //@   ensures err == nil && n != nil ==> Canon(n) && PathsWF(n)                                                   #returns-canonical-node
 //@   requires node != nil && Canon(node) && PathsWF(node) && len(path) > 0 && HexPath(path)
@@ -571,3 +588,111 @@ package util
 //@   ensures err == nil && n != nil ==> k != nil && len(k) == 32 && ((n is *FullNode) == KeyIsFull(k)) && (n is *LeafNode || n is *FullNode || n is *ExtensionNode)
 //@   ensures err == nil && n == nil ==> k == nil
 //@   ensures err == nil && node is *FullNode ==> n != nil
+
+// ================= C16: lock discipline of one state trie =================
+//
+// The trie's root, node store handle, change collector, missing-key list and delete list are guarded
+// by mpt.mutex: readers hold it for reading, mutators for writing (class "lock" obligations:
+// guard:<field>:<read|write>@<site>, holds:<callee>@<site>, unlock / lock-held-at-return).
+// (db, ChangeCollector and cache are assigned once at construction and synchronise themselves.)
+//@ guarded MerklePatriciaTrie.root by mutex
+//@ guarded MerklePatriciaTrie.deleteNodes by mutex
+//@ guarded MerklePatriciaTrie.missingNodeKeys by missingNodeKeysMu
+
+//@ func (*MerklePatriciaTrie).setRoot
+//@   props C16
+//@   holds mpt.mutex W
+//@ func (*MerklePatriciaTrie).GetRoot returns (k)
+//@   props C16
+//@ func (*MerklePatriciaTrie).GetNodeDB returns (db)
+//@   props C16
+//@ func (*MerklePatriciaTrie).GetMissingNodeKeys returns (keys)
+//@   props C16
+//@   mode wrap
+//@ func (*MerklePatriciaTrie).Insert returns (k, err)
+//@   props C16
+//@   mode wrap
+//@ func (*MerklePatriciaTrie).Delete returns (k, err)
+//@   props C16
+//@   mode wrap
+//@ func (*MerklePatriciaTrie).GetNodeValueRaw returns (v, err)
+//@   props C16
+//@   mode wrap
+//@ func (*MerklePatriciaTrie).GetChanges returns (root, changes, deletes, start)
+//@   props C16
+//@   mode wrap
+//@ func (*MerklePatriciaTrie).GetChangeCount returns (n)
+//@   props C16
+//@   mode wrap
+//@ func (*MerklePatriciaTrie).Iterate returns (err)
+//@   props C16
+//@   mode wrap
+//@ func (*MerklePatriciaTrie).IterateFrom returns (err)
+//@   props C16
+//@   mode wrap
+//@ func (*MerklePatriciaTrie).iterate returns (err)
+//@   props C16
+//@   mode wrap
+//@ func (*MerklePatriciaTrie).MergeChanges returns (err)
+//@   props C16
+//@   mode wrap
+//@ func (*MerklePatriciaTrie).mergeChanges returns (err)
+//@   props C16
+//@   mode wrap
+//@   holds mpt.mutex W
+//@ func (*MerklePatriciaTrie).MergeDB returns (err)
+//@   props C16
+//@   mode wrap
+//@ func (*MerklePatriciaTrie).GetAllMissingNodes returns (keys, err)
+//@   props C16
+//@   mode wrap
+//@ func (*MerklePatriciaTrie).pp2 returns (err)
+//@   props C16
+//@   mode wrap
+//@ func (*MerklePatriciaTrie).Validate returns (err)
+//@   props C16
+//@   mode wrap
+
+// ---- interface-level contracts of the trie's collaborators (used at every call through the
+//      interface; the implementations are checked separately where a property needs them) ----
+//@ func (NodeDB).GetNode returns (n, err)
+//@   assigns nothing
+//@   ensures err != nil ==> n == nil
+//@ func (NodeDB).PutNode returns (err)
+//@   assigns nothing
+//@ func (NodeDB).DeleteNode returns (err)
+//@   assigns nothing
+//@ func (NodeDB).MultiPutNode returns (err)
+//@   assigns nothing
+//@ func (NodeDB).MultiDeleteNode returns (err)
+//@   assigns nothing
+//@ func (NodeDB).Iterate returns (err)
+//@   assigns nothing
+//@ func (ChangeCollectorI).AddChange
+//@   assigns nothing
+//@ func (ChangeCollectorI).DeleteChange
+//@   assigns nothing
+//@ func (ChangeCollectorI).GetChanges returns (c)
+//@   assigns nothing
+//@ func (ChangeCollectorI).GetDeletes returns (d)
+//@   assigns nothing
+//@ func (ChangeCollectorI).GetStartRoot returns (k)
+//@   assigns nothing
+//@ func (ChangeCollectorI).Validate returns (err)
+//@   assigns nothing
+//@ func (ChangeCollectorI).Clone returns (c)
+//@   assigns nothing
+//@   ensures c != nil
+//@ func (MPTSerializable).MarshalMsg returns (o, err)
+//@   assigns nothing
+//@ func (MPTSerializable).UnmarshalMsg returns (o, err)
+//@   assigns nothing
+//@ func (Hashable).GetHashBytes returns (b)
+//@   assigns nothing
+//@ func (Node).GetHashBytes returns (b)
+//@   assigns nothing
+//@ func (Node).GetHash returns (s)
+//@   assigns nothing
+//@ func (Node).CloneNode returns (c)
+//@   assigns nothing
+//@   ensures c != nil
